@@ -173,7 +173,13 @@ func (w *methodWorld) Do(st Step) string {
 					bl.Struct(&mz.E{}).Method("Own").Return(base + 7)
 				}
 			case "Gint":
-				if apply {
+				if meth == "N" {
+					// (stubs only: Apply on generic methods is the open finding F21; the spec's "apply" = a superseding instruction
+					// is rendered as Cancel + a fresh stub, and so is every other instruction on N)
+					_ = apply
+					bl.Struct(&mz.G[int]{}).Method("N").Cancel() // every instruction starts a fresh stub (where the spec says a second
+					bl.Struct(&mz.G[int]{}).Method("N").Return(base + 7) // Return only extends, its requirement is "free" anyway)
+				} else if apply {
 					bl.Struct(&mz.G[int]{}).Method("M").Apply(func(p *mz.G[int], a int) int {
 						if p == nil || p.Tag < 1 || p.Tag > 3 || p != gInt[p.Tag-1] {
 							w.bad("G[int].M: receiver %p is not the instance", p)
@@ -247,6 +253,8 @@ func (w *methodWorld) call(t string, i int) int {
 		return (*instM[i]).Q(7)
 	case "Gint.M":
 		return gInt[i].M(7)
+	case "Gint.N":
+		return gInt[i].N(7)
 	case "Gstr.M":
 		return gStr[i].M(7)
 	case "GpA.M":
@@ -258,7 +266,7 @@ func (w *methodWorld) call(t string, i int) int {
 }
 
 var origBase = map[string]int{"A.Call": 100, "A.Call2": 200, "A.call": 300, "A.callAll": 1200, "V.Call": 400, "V.Get": 500, "u.Call": 600, "l.Call": 1100, "E.Own": 700,
-	"E.Call": 100, "M.P": 900, "M.Q": 1000, "Gint.M": 800, "Gstr.M": 800, "GpA.M": 800, "GpV.M": 800}
+	"E.Call": 100, "M.P": 900, "M.Q": 1000, "Gint.M": 800, "Gint.N": 850, "Gstr.M": 800, "GpA.M": 800, "GpV.M": 800}
 
 func (w *methodWorld) Observe(st Step) map[string]string {
 	out := map[string]string{}
@@ -275,6 +283,16 @@ func (w *methodWorld) Observe(st Step) map[string]string {
 			switch {
 			case p != "":
 				got = p
+			case t == "Gint.N" && p == "" && func() bool {
+				x := r - 50 // N's own code returns M(a) + 50, whatever M currently is: its original, a stub (possibly a sequence) ...
+				if x == origBase["Gint.M"]+7+(i+1) || (x >= 10000 && (x-10000)%100 == 7) {
+					return true
+				}
+				m := 0 // ... or what an Apply callback on M returns (open finding F21: deterministic garbage)
+				catch(func() { m = w.call("Gint.M", i) })
+				return m == x
+			}():
+				got = "orig" // N's own code runs: whatever M currently is, plus 50
 			case r == origBase[t]+7+(i+1):
 				got = "orig"
 			case r >= 10000 && (r-10000)%100 == 7:
